@@ -125,6 +125,7 @@ type run struct {
 	finish                  bool
 	pending                 []pendingAck
 	sentFinal               [][]byte // final acknowledgements sent so far
+	srvShut                 bool     // the server has shut down its sending direction
 	pendingPulse            simrt.Pulse
 	nAcks                   int
 	appState                []int // 0 running 1 barrier 2 finished
@@ -226,7 +227,7 @@ func b2i(b bool) int64 {
 
 // serverSend writes a packet to the client.
 func (r *run) serverSend(b []byte) {
-	if r.conn == nil || r.conn.Closed() {
+	if r.conn == nil || r.conn.Closed() || r.srvShut {
 		return
 	}
 	// several harness tasks write to the client: one packet at a time
@@ -426,6 +427,13 @@ func (r *run) serverOps() {
 		case "pubrel":
 			delete(r.noRel, op.ID)
 			r.serverSend(refmqtt.Encode(&refmqtt.Packet{Type: refmqtt.PUBREL, ID: op.ID}))
+		case "shutwr":
+			// half-close: the client reads everything sent so far, then EOF;
+			// the server keeps reading the client's acknowledgements
+			if r.conn != nil && !r.conn.Closed() {
+				r.srvShut = true
+				r.conn.CloseWrite()
+			}
 		}
 	}
 }
@@ -1192,7 +1200,10 @@ func (r *run) judgeReceiver() {
 	}
 	if len(got) > len(want) {
 		r.viol("C02", "ack-stream", "C02/client-extra-ack", "the client sent %d acknowledgements, the server's packets call for %d; first extra: %s", len(got), len(want), got[len(want)])
-	} else if len(got) < len(want) && (!r.serverDead || r.disconnected) {
+	} else if len(got) < len(want) && (!r.serverDead || r.disconnected) && !r.srvShut {
+		// (after the server's half-close the client may end the connection
+		// without flushing the answers it still owes: the statement is about
+		// a connection that is alive in both directions)
 		r.viol("C02", "ack-stream", "C02/client-missing-ack", "the client sent %d acknowledgements by the end, the server's packets call for %d; first missing: %s", len(got), len(want), want[len(got)])
 	}
 	// hand-over of QoS 2 messages not before the PUBREL
